@@ -97,6 +97,8 @@ pub fn minimise(sc: &Scenario, oracles: Oracles, oracle: &str) -> Scenario {
             }
         }
     }
+    // drop receivers and replicas that no remaining event refers to (indices are renumbered)
+    best = compact(&best, oracles, oracle);
     // simpler data
     for d in [DataSpec::Zero, DataSpec::Count] {
         let mut c = best.clone();
@@ -125,6 +127,88 @@ pub fn minimise(sc: &Scenario, oracles: Oracles, oracle: &str) -> Scenario {
         }
     }
     best
+}
+
+fn remap(sc: &Scenario, rx_map: &[Option<usize>], rep_map: &[Option<usize>]) -> Scenario {
+    let mut out = sc.clone();
+    out.setup.receivers = sc.setup.receivers.iter().enumerate().filter(|(i, _)| rx_map[*i].is_some()).map(|(_, r)| r.clone()).collect();
+    out.setup.replicas = sc.setup.replicas.iter().enumerate().filter(|(i, _)| rep_map[*i].is_some()).map(|(_, r)| r.clone()).collect();
+    out.events = sc
+        .events
+        .iter()
+        .filter_map(|e| {
+            Some(match e {
+                Event::Source { replica, sbn } => Event::Source { replica: rep_map[*replica]?, sbn: *sbn },
+                Event::Window { replica, sbn, s, n } => Event::Window { replica: rep_map[*replica]?, sbn: *sbn, s: *s, n: *n },
+                Event::Burst { replica, r } => Event::Burst { replica: rep_map[*replica]?, r: *r },
+                Event::Deliver { rx, batch } => {
+                    let b: Vec<Frame> = batch.iter().filter_map(|f| Some(Frame { replica: rep_map[f.replica]?, sbn: f.sbn, esi: f.esi })).collect();
+                    if b.is_empty() {
+                        return None;
+                    }
+                    Event::Deliver { rx: rx_map[*rx]?, batch: b }
+                }
+                Event::Poke { rx, sbn } => Event::Poke { rx: rx_map[*rx]?, sbn: *sbn },
+                Event::Snapshot { rx } => Event::Snapshot { rx: rx_map[*rx]? },
+                Event::Rollback { rx } => Event::Rollback { rx: rx_map[*rx]? },
+                Event::Check { rx } => Event::Check { rx: rx_map[*rx]? },
+                Event::Final => Event::Final,
+            })
+        })
+        .collect();
+    out
+}
+
+fn compact(sc: &Scenario, oracles: Oracles, oracle: &str) -> Scenario {
+    let nrx = sc.setup.receivers.len();
+    let nrep = sc.setup.replicas.len();
+    let mut rx_used = vec![false; nrx];
+    let mut rep_used = vec![false; nrep];
+    for e in &sc.events {
+        match e {
+            Event::Source { replica, .. } | Event::Window { replica, .. } | Event::Burst { replica, .. } => {
+                if *replica < nrep {
+                    rep_used[*replica] = true;
+                }
+            }
+            Event::Deliver { rx, batch } => {
+                if *rx < nrx {
+                    rx_used[*rx] = true;
+                }
+                for f in batch {
+                    if f.replica < nrep {
+                        rep_used[f.replica] = true;
+                    }
+                }
+            }
+            Event::Poke { rx, .. } | Event::Snapshot { rx } | Event::Rollback { rx } | Event::Check { rx } => {
+                if *rx < nrx {
+                    rx_used[*rx] = true;
+                }
+            }
+            Event::Final => {}
+        }
+    }
+    // keep at least one of each; replica 0 is the producer used by the set-determinism oracle
+    if !rx_used.iter().any(|u| *u) && nrx > 0 {
+        rx_used[0] = true;
+    }
+    if nrep > 0 {
+        rep_used[0] = true;
+    }
+    if rx_used.iter().all(|u| *u) && rep_used.iter().all(|u| *u) {
+        return sc.clone();
+    }
+    let mut next = 0;
+    let rx_map: Vec<Option<usize>> = rx_used.iter().map(|u| if *u { next += 1; Some(next - 1) } else { None }).collect();
+    let mut next = 0;
+    let rep_map: Vec<Option<usize>> = rep_used.iter().map(|u| if *u { next += 1; Some(next - 1) } else { None }).collect();
+    let cand = remap(sc, &rx_map, &rep_map);
+    if fails_same(&cand, oracles, oracle).is_some() {
+        cand
+    } else {
+        sc.clone()
+    }
 }
 
 fn signature(f: &Fail, sc: &Scenario) -> String {
